@@ -183,6 +183,6 @@ def selftest():
            "species": {"d0": ["d", 0, 1], "d1": ["d", 1, 1], "he1": ["he", 1, 2], "c5": ["c", 5, 6], "c6": ["c", 6, 6]}}
     good = replay(rec, None)
     bad = replay(dict(rec, total=18), None)
-    ok = not good and bool(bad)
+    ok = not any("sig" in x for x in good) and any("sig" in x for x in bad)
     print("C03 selftest:", "ok" if ok else "FAILED", good[:1], bad[:1])
     return 0 if ok else 2
